@@ -128,13 +128,12 @@ Inductive Step : state -> Prop :=
 | SExit : forall tb b ops', unw r = false -> fops f = OExit tb b :: ops' -> Step (set_r s i (set_ext (adv ops') (Some (tb, b))))
 | SExitFail : forall tb b ops', unw r = false -> fops f = OExit tb b :: ops' -> Step (raise s i (adv ops'))
 (* an exit marker on its way up: the frame is left (keeping or consuming the marker), a lock frame is left and
-   unlocked, or the frame carries on and the marker is dropped *)
+   unlocked - from any position of the body *)
 | SUnwBlock : forall tb b, unw r = true -> fk f = KBlock tb b -> Step (set_r s i (set_stk r rest))
 | SExtPop : forall e e', unw r = false -> ext r = Some e -> (forall m, fk f <> KLock m) ->
     Step (set_r s i (set_ext (set_stk r rest) e'))
-| SExtPopLock : forall e m, unw r = false -> ext r = Some e -> fk f = KLock m -> fops f = [] ->
-    Step (set_rm s i (set_stk r rest) m None)
-| SExtDrop : forall e, unw r = false -> ext r = Some e -> Step (set_r s i (set_ext r None)).
+| SExtPopLock : forall e m, unw r = false -> ext r = Some e -> fk f = KLock m ->
+    Step (set_rm s i (set_stk r rest) m None).
 End StepRel.
 
 Lemma step_Step : forall s i k s', step s i k = Some s' ->
@@ -156,16 +155,17 @@ Proof.
       { intros. eapply SExtPop; eauto. }
       assert (POP0 : (forall m, fk f <> KLock m) -> Step s i r f rest (set_r s i (set_stk r rest))).
       { intros N. exact (POP (ext r) N). }
-      assert (DROP : Step s i r f rest (set_r s i (set_ext r None))) by (eapply SExtDrop; eauto).
       destruct (fk f) eqn:K.
       - inversion H; subst. apply POP0. intros; congruence.
-      - destruct (fops f) eqn:O; inversion H; subst; auto. eapply SExtPopLock; eauto.
-      - destruct (fops f) eqn:O; inversion H; subst; auto. apply POP0. intros; congruence.
+      - inversion H; subst. eapply SExtPopLock; eauto.
+      - inversion H; subst. apply POP0. intros; congruence.
       - destruct tb0.
-        + destruct tb; inversion H; subst; auto. apply POP. intros; congruence.
-        + destruct tb.
-          * destruct (fops f) eqn:O; inversion H; subst; auto. apply POP0. intros; congruence.
-          * inversion H; subst. apply POP. intros; congruence. }
+        + destruct (tb && Nat.eqb b0 b); inversion H; subst.
+          * apply POP. intros; congruence.
+          * apply POP0. intros; congruence.
+        + destruct tb; inversion H; subst.
+          * apply POP0. intros; congruence.
+          * apply POP. intros; congruence. }
     destruct (fops f) as [|o ops'] eqn:O.
     + destruct (fk f) eqn:K; inversion H; subst.
       * apply SExitOther; auto. intros; congruence.
